@@ -210,14 +210,14 @@ fn families(a: &Args) -> Vec<Family> {
         fam_match_simple("matching-ungraphs5-loopfree", false, SimpleFam::new(5..=5, false, false), 1),
         fam_match_list("matching-lists4", false, ListFam::new(4, if t { 4 } else { 3 }, false), 1),
         fam_match_simple("matching-ungraphs6-loopfree", false, SimpleFam::new(6..=6, false, false), 0),
-        fam_match_simple("matching-ungraphs5-loops", true, SimpleFam::new(5..=5, false, true), 1),
-        fam_match_list("matching-lists5", true, ListFam { n: 5, m: 4, directed: false, loops: false }, 0),
+        fam_match_simple("matching-ungraphs5-loops", false, SimpleFam::new(5..=5, false, true), 1),
+        fam_match_list("matching-lists5", false, ListFam { n: 5, m: 4, directed: false, loops: false }, 0),
         fam_match_simple("matching-ungraphs7-loopfree", true, SimpleFam::new(7..=7, false, false), 0),
         fam_match_simple("matching-ungraphs6-loops", true, SimpleFam::new(6..=6, false, true), 0),
         fam_flow_list("flow-lists3", false, WListFam { n: 3, m: 3, directed: true, loops: true, k: if t { 4 } else { 2 } }, 1),
         fam_flow_list("flow-lists4", false, WListFam { n: 4, m: if t { 3 } else { 2 }, directed: true, loops: true, k: 2 }, 1),
         fam_flow_simple("flow-simple4-le5edges", false, WSimpleFam { n: 4, directed: true, loops: false, k: 2, max_edges: Some(if t { 6 } else { 4 }) }, 0),
-        fam_flow_simple("flow-simple4-3caps-le5edges", true, WSimpleFam { n: 4, directed: true, loops: false, k: 3, max_edges: Some(5) }, 1),
+        fam_flow_simple("flow-simple4-3caps-le5edges", false, WSimpleFam { n: 4, directed: true, loops: false, k: 3, max_edges: Some(5) }, 1),
     ]
 }
 
